@@ -27,8 +27,14 @@ def objdump_text(obj, extra=()):
 
 
 def random_blob_source(rnd, nbytes, section=".text"):
+    """Random code bytes.  A symbol every few hundred bytes makes objdump restart decoding there, which is
+    how truncated instructions and lone prefix bytes (`data16`, `rex.W`, `lock`) get printed."""
     lines = [f"\t.section {section},\"ax\",@progbits" if section != ".text" else "\t.text", "blob:"]
-    for _ in range(0, nbytes, 16):
+    for n in range(0, nbytes, 16):
+        if n and n % 320 == 0:
+            # end the chunk before a symbol with a dangling prefix byte now and then
+            lines.append("\t.byte " + rnd.choice(["0x66", "0xf0", "0x48", "0xf3", "0x2e", "0x67", "0x0f"]))
+            lines.append(f"sym{n}{section.replace('.', '_')}:")
         lines.append("\t.byte " + ",".join(f"0x{rnd.randrange(256):02x}" for _ in range(16)))
     return "\n".join(lines) + "\n"
 
@@ -46,7 +52,7 @@ REG16 = ["ax", "bx", "cx", "dx", "si", "di", "bp", "sp", "r8w", "r9w", "r10w", "
 REG8 = ["al", "bl", "cl", "dl", "sil", "dil", "bpl", "spl", "r8b", "r9b", "r10b", "r11b", "r12b", "r13b", "r14b", "r15b"]
 
 
-def template_source(rnd, n, branches=True):
+def template_source(rnd, n, branches=True, extended=False):
     """n random instructions whose operands are drawn from the AT&T forms of C09."""
     out = ["\t.text", "f:"]
 
@@ -61,8 +67,54 @@ def template_source(rnd, n, branches=True):
             return f"{k}(%{a},%{b},{c})"
         return f"{k}(%{a})"
 
+    def special():
+        r64, r32 = rnd.choice(REG64), rnd.choice(REG32)
+        idx = rnd.choice([r for r in REG64 if r != "rsp"])
+        z = lambda: f"%zmm{rnd.randrange(32)}"
+        return rnd.choice([
+            f"\tmov %fs:0x{rnd.randrange(0x600):x}(,%{idx},8),%{r64}",
+            f"\tmovq $0x0,%fs:0x{rnd.randrange(0x600):x}(,%{idx},8)",
+            f"\tmov %gs:(%{r64},%{idx},2),%{r32}",
+            f"\tmov %fs:0x28,%{r64}",
+            f"\tvaddps (%{r64},%{idx},4){{1to16}},{z()},{z()}",
+            f"\tvmulps 0x40(%{r64}){{1to16}},{z()},{z()}",
+            f"\tvmovups {z()},(%{r64},%{idx},1){{%k{rnd.randrange(1, 8)}}}",
+            f"\tvmovups {z()},0x40(%{r64}){{%k{rnd.randrange(1, 8)}}}",
+            f"\tvaddps {z()},{z()},{z()}{{%k{rnd.randrange(1, 8)}}}{{z}}",
+            f"\tvaddps {{rn-sae}},{z()},{z()},{z()}",
+            f"\tfadd %st({rnd.randrange(1, 8)}),%st",
+            f"\tfxch %st({rnd.randrange(1, 8)})",
+            "\tcmpsb",
+            "\tmovsq",
+            "\trep stosb",
+            "\trepz cmpsb",
+            f"\tlock cmpxchg %{r64},(%{rnd.choice(REG64)})",
+            f"\tlock addl $0x1,0x8(%{r64},%{idx},4)",
+            f"\tjmp *0x{rnd.randrange(0x4000):x}(%rip)",
+            f"\tcall *%{r64}",
+            f"\tcall *0x8(%{r64},%{idx},8)",
+            f"\tjmp *0x0(,%{idx},8)",
+            f"\tcmp -0x8(%{r64},%{idx},2),%{r32}",
+            "\t.byte 0x66,0x66,0x2e,0x0f,0x1f,0x84,0x00,0x00,0x00,0x00,0x00",
+            "\tnopw 0x0(%rax,%rax,1)",
+            "\txchg %ax,%ax",
+            f"\tbnd jmp f+{rnd.randrange(0, 400)}",
+            f"\tnotrack jmp *%{r64}",
+            "\tendbr64",
+            f"\tjne,pn f+{rnd.randrange(0, 100)}" if rnd.random() < 0.05 else "\tpause",
+            f"\tvgatherdps (%{r64},%zmm{rnd.randrange(32)},4),{z()}{{%k{rnd.randrange(1, 8)}}}",
+            f"\tmovabs $0x{rnd.getrandbits(63):x},%{r64}",
+            f"\tljmp *(%{r64})",
+            f"\tenter $0x{rnd.randrange(0x100):x},$0x0",
+            f"\tout %al,$0x{rnd.randrange(0x100):x}",
+            f"\tpextrw $0x{rnd.randrange(8)},%xmm{rnd.randrange(16)},%{r32}",
+        ])
+
     for _ in range(n):
         kind = rnd.randrange(9)
+        if extended and rnd.random() < 0.25:
+            out.append(special())
+            continue
         if kind == 5 and not branches:
             kind = 6
         w = rnd.choice(["q", "l", "w", "b"])
